@@ -426,6 +426,16 @@ def Pool.addWaiting (p : Pool) (par b : Nat × Nat) : Pool :=
     { p with waiting := p.waiting.map (fun w => if w.1 == par then (w.1, w.2 ++ [b]) else w) }
   else { p with waiting := p.waiting ++ [(par, [b])] }
 
+/-- second half of `add_block`: notify the block's slot if the parent is already certified, else wait -/
+def Pool.addBlockTail (p : Pool) (b par : Nat × Nat) (e0 : List Event) (certified : Bool) : Pool × List Event :=
+  if certified then
+    match (p.slotState b.1).2.notifyParentCertified (p.slotState b.1).1.epoch b.2 with
+    | none => ((p.slotState b.1).1, e0 ++ [.panic])
+    | some (st, evs) =>
+      if evs.isEmpty then (Pool.addWaiting ((p.slotState b.1).1.putSlot st) par b, e0)
+      else ((p.slotState b.1).1.putSlot st, e0 ++ evs)
+  else (Pool.addWaiting p par b, e0)
+
 /-- `Pool::add_block` -/
 def Pool.addBlock (p : Pool) (b par : Nat × Nat) : Pool × List Event :=
   if ¬ (b.1 > par.1) then (p, [.panic])
@@ -445,14 +455,7 @@ def Pool.addBlock (p : Pool) (b par : Nat × Nat) : Pool × List Event :=
       let certified := match p.getSlot par.1 with
         | some ps => ps.isNfOrStronger par.2
         | none => false
-      if certified then
-        let (p, st) := p.slotState b.1
-        match st.notifyParentCertified p.epoch b.2 with
-        | none => (p, e0 ++ [.panic])
-        | some (st, evs) =>
-          let p := p.putSlot st
-          if evs.isEmpty then (Pool.addWaiting p par b, e0) else (p, e0 ++ evs)
-      else (Pool.addWaiting p par b, e0)
+      Pool.addBlockTail p b par e0 certified
 
 /-! ### standstill recovery -/
 
